@@ -8,14 +8,14 @@ from vlib.lhaenc import crc16
 ID = "C18"
 LEAN_MODULES = ["LhasaV.Props.C18"]
 VH_FEATURES = ["tool"]
-THEOREMS = {"safe_output_printable": "full: every byte string", "safe_keeps_printable": "full",
+THEOREMS = {"safe_class_matches_source": "full (translator tie): safe_output of src/safe.c evaluated for every byte = the model; byte-wise on every string", "os_names_match_source": "full (translator tie): os_type_to_string of src/list.c evaluated for all 256 identifier bytes = the model", "progress_len_matches_source": "full (translator tie): MAX_PROGRESS_LEN", "safe_output_printable": "full: every byte string", "safe_keeps_printable": "full",
             "test_output_printable": "full: stdout of lha t on every archive/options (progress bars, Tested / CRC error, VERIFY)",
             "extract_output_printable": "full: stdout of lha x/e/xn on every archive, options, file system, answers",
             "stderr_printable": "full: prompts and error messages of both modes",
             "listing_printable": "full: every byte of every l/lv/v/vv listing, any quiet level, for ARBITRARY headers",
             "print_banners_printable": "full: lha p = banner segments (printable/newline) + member contents",
             "(t/x progress and error messages go through the sanitiser)": "correspondence only"}
-TRUSTED = ["model LhasaV.Model.Safe of safe_output (src/safe.c), tied by the `safe` op; which call sites go through it is observed on the "
+TRUSTED = ["gen/ext_tool.c + gcc: os_type_to_string, safe_output and MAX_PROGRESS_LEN are evaluated by compiling src/list.c, src/safe.c, src/extract.c", "model LhasaV.Model.Safe of safe_output (src/safe.c), tied by the `safe` op; which call sites go through it is observed on the "
            "real tool's stdout/stderr, mode by mode"]
 ASSUMPTIONS = ["file contents dumped by `p` are outside the property: generated members contain printable data"]
 RULE = ("archives whose header string fields carry arbitrary bytes 0x01..0xFF: in-header names, name / path / user / group extended headers, "
@@ -71,6 +71,9 @@ def hostile_archive(r):
             if r.random() < 0.5:
                 pathc = hostile(r, r.choice([200, 600, 1100]), avoid=b"\x00/\\\xff|")
         exts = []
+        # the OS identifier byte is archive-derived too (a member without permission headers shows the OS name in the first column):
+        # known identifiers, and any other byte – control characters, DEL, the 8-bit range
+        os_t = r.choice([0x55, 0x55, 0x4d, r.choice([0x1b, 0x7f, 0x80, 0x9b, 0xff, 0x0a, 0x07]), r.randrange(1, 256), r.randrange(0x7f, 256)])
         if kind == "dir":
             method = b"-lhd-"
         if kind == "link":
@@ -86,11 +89,11 @@ def hostile_archive(r):
             if kind == "dir" or r.random() < 0.5:
                 exts.append((E.EXT_PATH, pathc + b"\xff"))
             f = E.Fields(level=2, method=method, clen=len(data) if kind == "file" else 0, length=len(data) if kind == "file" else 0,
-                         crc=crc16(data) if kind == "file" else 0, os_type=0x55, exts=exts, time=r.choice([0, 1300000000]))
+                         crc=crc16(data) if kind == "file" else 0, os_type=os_t, exts=exts, time=r.choice([0, 1300000000]))
         else:
             nm_in = (pathc + b"\\" + name) if (kind != "dir" and r.random() < 0.5) else (name if kind != "dir" else pathc + b"\\")
             f = E.Fields(level=lvl, method=method, clen=len(data) if kind == "file" else 0, length=len(data) if kind == "file" else 0,
-                         crc=crc16(data) if kind == "file" else 0, os_type=r.choice([0x4d, 0x55, 0x00]), name=nm_in,
+                         crc=crc16(data) if kind == "file" else 0, os_type=r.choice([0x4d, 0x55, 0x00, os_t]), name=nm_in,
                          exts=exts if lvl == 1 else [], time=r.choice([0, 0x3c210000]))
             if lvl == 0 and kind == "link":
                 f.area = bytes([0x55, 0, 0, 0, 0, 0]) + (0o120777).to_bytes(2, "little") + b"\0\0\0\0"
